@@ -59,6 +59,11 @@ CHECKS = {
    text="The complete table 256 control bytes x 19 destination addresses x 7 source addresses x role x self-address feature x {fresh, after link reset} x 2 passes (440k frames) is run through link::layer::Layer and compared with a transcription of the statement (accepted, reply function/addresses, delivery, FCB toggling); generated RESET/CONFIRMED_USER_DATA sequences check the frame-count-bit rule; generated session cases send valid and invalid fragments from the configured master, a foreign master and the three broadcast addresses in idle and confirm-wait states with the any-master/broadcast features on and off: nothing may be transmitted in reaction to a broadcast, nothing but link-layer traffic and no callback for a foreign master.",
    note="Frames with malformed flag combinations and secondary frames are only required not to be acted on when not addressed to the endpoint. A REQUEST_LINK_STATUS to a broadcast address is required NOT to be answered.",
    design="DESIGN.md §5 C07"),
+ "C02": dict(
+   technique="stateful property-based testing of a deterministic two-endpoint simulation (PairRig) with fault injection by a proxy; history oracle (authentic / converged / events at least once)",
+   text="A real MasterTask and a real OutstationTask (real link and transport layers on both sides, the real ServerTask loop, a client loop mirroring tcp/client.rs) are joined by an in-memory proxy task on a paused-clock runtime. Generated histories: updates of all eight point types with unique values, commands through the master mirrored into output status points, waits around the confirm and response timeouts, connection cuts (now, after k bytes incl. mid-frame, half-open with pre-emption by the next connection), re-chunking and per-direction delays; configurations: unsolicited on/off, event buffers 1/2/3/60, fragment sizes 249..2048, both link error modes on both sides, poll periods, event/overflow scans. After every step every value the ReadHandler received must be one the point really held under the C10 reference (S1); after the history stops, an integrity poll that started after the last update must complete within 100 x (poll period + response timeout) of link-up virtual time and deliver every point's current value, equal to Database::get (S2); every event whose id was not reported discarded must have reached the handler as an event (S3).",
+   note="Single-threaded by design: real thread interleavings between user threads, master task and outstation task are not explored, and the kernel TCP stack is replaced by the in-memory physical layer (hook H3). Duplicated deliveries and the relative order of a stale event and a newer static value are not asserted. UpdateInfo is trusted to name created / discarded event ids.",
+   design="DESIGN.md §5 C02"),
  "C09": dict(
    technique="property-based testing / grammar-based fuzz-style generation: accept=>exact differential against an independent header walker, byte-for-byte differential of every request builder against reference encoders, writer output re-parsed",
    text="(1) accept_exact: fragments from a grammar over the reference size table (every function code, every group/variation x 8 qualifiers, boundary counts and ranges incl. ranges ending at 255/65535, octet strings, attributes, free format), half of them with layout-suited qualifiers so that they are accepted, then truncated/extended/bit-flipped; whenever the library accepts the object part, a generated visitor (one arm per variant of the library's header enums) iterates every header: second pass == first, declared count/indices == yielded, Display shows as many objects, every object re-encodes with the library's own write() to the wire octets, and the independent walker must consume exactly the same octets into the same headers, indices and object octets. (2) requests: descriptions of ReadRequest (all shapes), Headers (incl. time-and-interval, attribute writes), CommandBuilder (5 control types x 8/16-bit indices x several headers), dead-band writes and file objects g70v2/3/4/5/7 are encoded by the library builders and by reference encoders - octets must be identical - then parsed. (3) writers: every response/unsolicited fragment of the static and event writers (C10 generator) must parse, agree with the walker and decode to the described points.",
